@@ -25,10 +25,10 @@ CHECKS.update({
         design_ref="DESIGN.md §2.3, §4 C01",
     ),
     "C02": dict(
-        engine="LLSym",
-        technique="same LLSym symbolic run of the real DP with entries constrained to error-free copies (allele = h[column] xor s[read]); z3 decides 'cost = 0 and each read-connected component carries the true haplotypes up to a swap, nothing flagged as tie'",
-        text="Solver lemma of C02 at the solver interface, for all true haplotypes / read origins / weights >= 1 of every enumerated shape. The surrounding pipeline stages are claimed by their own properties (C06, C07, C03, C04, C09); the byte-level BAM/VCF path is outside.",
-        note="As C01. Whole-pipeline composition with real BAM/VCF files is not encodable (htslib) and not claimed.",
+        engine="LLSym + PySym/DeCy",
+        technique="(a) ef_lemma: same LLSym symbolic run of the real DP with entries constrained to error-free copies (allele = h[column] xor s[read]); z3 decides 'cost = 0 and each read-connected component carries the true haplotypes up to a swap, nothing flagged as tie'; (b) ef_detect: bounded symbolic execution (PySym/z3, DeCy for the .pyx kernels) of ReadSetReader.read on symbolic DNA: a read that is an exact copy of a haplotype never records the allele the haplotype does not carry, whatever part of the variant it covers; every path replayed on the real module with real pysam.AlignedSegment objects",
+        text="(a) solver lemma at the solver interface, for all true haplotypes / read origins / weights >= 1 of every enumerated shape; (b) the input side of that lemma: reference <= 7 (10) symbolic bases, one variant of every kind at every position, one read over every reference interval, re-alignment with overhang 1-2 (3) and CIGAR-based SNV detection. The remaining pipeline stages are claimed by their own properties (C07, C03, C04, C09); the byte-level BAM/VCF path is outside.",
+        note="As C01 and C06. One known finding (an uninformative read that stops at an insertion's anchor base is recorded as REF; reproduced with the CLI: findings/c02_read_ends_at_insertion_anchor.py). Whole-pipeline composition with real BAM/VCF files is not encodable (htslib) and not claimed.",
         design_ref="DESIGN.md §4 C02 (a)",
     ),
     "C05": dict(
@@ -41,7 +41,7 @@ CHECKS.update({
     "C20": dict(
         engine="PySym",
         technique="bounded symbolic execution (PySym/z3) of whatshap.cli.phase.run_whatshap with the environment stubbed (VCF reader/writer, read input, exact solver as contract stub, in-memory files); every path replayed on the real module with real files",
-        text="All three list files are checked against what each (chromosome, family) step produced, for 1-2 chromosomes x {single, trio, trio + unrelated sample} x distrust on/off with solver-chosen read patterns, transmission vectors and genotype changes.",
+        text="All three list files are checked against what each (chromosome, family) step produced, for 1-2 chromosomes x {single, trio, trio + unrelated sample} x distrust on/off with solver-chosen read patterns (including a phase set nested inside the family's block, 5 variants), transmission vectors and genotype changes.",
         note="Trusted: the stubs listed in the evidence (they stand for C01/C04); PySym proxies. Outside: real BAM/VCF I/O, more than 2 chromosomes / 2 families (the defect class is per-step file handling).",
         design_ref="DESIGN.md §4 C20",
     ),
@@ -99,9 +99,9 @@ CHECKS.update({
     ),
     "C16": dict(
         engine="PySym",
-        technique="the hash seed as a symbolic variable: inside the repo modules set/frozenset iteration over hash-randomised elements yields a solver-chosen permutation (PySym/z3); run_compare and run_polyphase are executed under stubs twice (canonical order / solver's order) and everything they write must be identical; a difference is confirmed by running the real CLI under several PYTHONHASHSEED values",
-        text="compare: 2-3 single-sample VCFs, all naming patterns, --ignore-sample-name, all four output files + stdout; polyphase: 2-3 samples with solver-chosen het sets. Worker scheduling (--threads) and htslib compression threads are NOT claimed: no interleaving of OS processes/threads is visible to a symbolic executor of the source.",
-        note="Trusted: nondet set shim (over-approximates hash orders; reports need a real reproduction), stubs listed in the evidence. Other subcommands (phase, haplotag, genotype, stats, unphase, split) are not encoded for this property.",
+        technique="the hash seed as a symbolic variable: inside the repo modules set/frozenset iteration over hash-randomised elements yields a solver-chosen permutation (PySym/z3); run_compare, run_polyphase, run_whatshap (phase), run_genotype, run_haplotag, run_stats, run_unphase and run_split are executed under stubs twice (canonical order / solver's order; one permutation per distinct set content, as one process has one seed) and everything they write must be identical; a difference is confirmed by running the real CLI under several PYTHONHASHSEED values",
+        text="compare: 2-3 single-sample VCFs, all naming patterns, --ignore-sample-name, all four output files + stdout; polyphase: 2-3 samples with solver-chosen het sets; phase: trio / quartet / trio+single / two trios x 1-2 chromosomes x --use-ped-samples x --distrust-genotypes, VCF and all three lists; genotype: same families, --no-priors, --prioroutput; haplotag: two samples sharing barcodes / read names, --sample subsets; stats (plain and tabix-indexed input, --chromosome), unphase, split: one pass each. Worker scheduling (--threads) and htslib compression threads are NOT claimed: no interleaving of OS processes/threads is visible to a symbolic executor of the source.",
+        note="Trusted: nondet set shim (over-approximates hash orders; reports need a real reproduction under two PYTHONHASHSEED values), the stubs listed in the evidence (the solver contract stubs assume independence from the order of add_individual calls). Three hash-seed defects were found and repaired in /repo (compare multiway sample column, PedReader.samples(), haplotag sample loop). haplotagphase and learn are not encoded.",
         design_ref="DESIGN.md §4 C16, §9",
     ),
     "C19": dict(
@@ -152,7 +152,7 @@ CHECKS.update({
     "C17": dict(
         engine="PySym",
         technique="bounded symbolic execution (PySym/z3) of the chain haplotag (tags) -> haplotagphase (compute_votes, best_candidate, consensus, run_haplotagphase bookkeeping); replay through the real run_haplotagphase with real VcfReader/PhasedVcfWriter/pysam on files written from the witness",
-        text="<= 3 (4) variants in <= 2 phase sets, <= 2 (3) error-free reads, partially unphased second input.",
+        text="<= 3 (4) variants in <= 2 phase sets, <= 2 (3) error-free reads, partially unphased second input; sub-check chain_multiallelic mixes 1-ALT and 2-ALT records (all six ordered het genotypes over alleles 0,1,2) through the allele_to_id / id_to_allele path.",
         note="Trusted: PhasedInputReader stand-in. One known finding (already phased variants without votes are un-phased).",
         design_ref="DESIGN.md §4 C17, §9",
     ),
